@@ -65,9 +65,8 @@ let run_case opname t =
       let show_ull = kind = "bs" in
       let m = run_m bits w (init_m bits w) ops in
       let s = s_run bits (s_init bits) ops in
-      let in_dom = List.for_all op_dom ops in
       (String.concat " ; " (List.map (m_step_s show_ull) m),
-       if in_dom then String.concat " ; " (List.map (s_step_s show_ull) s) else "na")
+       String.concat " ; " (List.map (s_step_s show_ull) s))
   | "words" ->
       (* raw storage after every step (object representation of the etl object); no spec leg *)
       let _kind = next_str t in
@@ -76,21 +75,6 @@ let run_case opname t =
       let ops = parse_ops t in
       let r = run_words_m bits w (init_m bits w) ops in
       (String.concat " ; " (List.map (function Some ws -> words_s ws | None -> "contract") r), "na")
-  | "strbad" ->
-      (* string constructor outside the standard's domain (characters other than zero/one):
-         only the correspondence is checked *)
-      let bits = next_nat t in
-      let s = next_nlist t in
-      let pos = next_nat t in
-      let n = next_n t in
-      let zero = next_n t in
-      let one = next_n t in
-      let w = nat_of_int 64 in
-      let mx = ones0 w in
-      let m = match of_string bits w mx mx s pos n zero one with
-        | Ok ws -> join [ chars_s (to_string_m bits w mx ws chr0 chr1); string_of_int (int_of_nat (count_m ws)) ]
-        | _ -> "contract" in
-      (m, "na")
   | "tostr" ->
       let bits = next_nat t in
       let s = next_nlist t in
